@@ -12,7 +12,7 @@ from gvsim import resets as R
 from gvsim.kernel import stream
 from gvsim.lib import ACTIONS, action_of, blocks_movement, mk_state, sha, state_key, world_of, wkey
 from gvsim.scripted_rng import ScriptedRng
-from gvsim.sim import Client, Raised, Sim, sut
+from gvsim.sim import Client, Raised, Sim, inject_rng, sut
 
 PROP = 'C14'
 TIERS = {'quick': {'runs': 4000, 'wall': 110, 'chunk': 25}, 'thorough': {'runs': 100000, 'wall': 1500, 'chunk': 50}}
@@ -256,7 +256,7 @@ def build_env(runner, w, fam):
 
 def run_plan(cl, w, plan, script, goals):
     """execute the plan on the real stack; returns None if the goal is reached as planned, else a reason"""
-    cl.env._rng = ScriptedRng(0, 'first', script=script)
+    inject_rng(cl.env, ScriptedRng(0, 'first', script=script))
     s = mk_state(w)
     for i, a in enumerate(plan):
         r = sut(cl.env.functional_step, s, action_of(a))
@@ -347,7 +347,7 @@ def execute(record, ctx):
         if 'move_obstacles' in fam['chain']:
             ctx.undecided['no_plan_stochastic_family'] += 1
             continue
-        cl.env._rng = ScriptedRng(0, 'first')
+        inject_rng(cl.env, ScriptedRng(0, 'first'))
         verdict = real_bfs(cl, w, goals)
         if verdict is True:
             ctx.count('won_by_real_search:' + name)
